@@ -242,7 +242,7 @@ static int cond_get_exp (int priority) {
         yyerrorp ("bracket not paired in %cif");
 #endif
     }
-  else if (ispunct (c))
+  else if (c >= ' ' && c <= '~' && ispunct (c))
     {
       x = _optab[c - ' '];
       if (!x)
